@@ -66,4 +66,11 @@ theorem C10_idem_action_json_shipped (v : J) (ht : isActionText v = true) :
     expandJ catalogue false (expandJ catalogue false v) = expandJ catalogue false v :=
   C10_idem_action_json catalogue C10_catalogue_no_wild C10_catalogue_nodup_ci v ht
 
+/-- C10_idem_tree_shipped: on the shipped catalogue, a second expansion of the `Action` elements leaves the whole
+    tree — every resource, statement and nested property — as the first left it. -/
+theorem C10_idem_tree_shipped (j : J) :
+    walkWith (expandJ catalogue false) id (walkWith (expandJ catalogue false) id j) =
+      walkWith (expandJ catalogue false) id j :=
+  C10_idem_tree catalogue C10_catalogue_no_wild C10_catalogue_nodup_ci j
+
 end PycfModel.Expand
